@@ -28,6 +28,7 @@ PLAN = dict(
                det("dbg", H, "cs-dbg", 16, 35, 4, tso=True, time_cap=20),
                det("limiter-directed", H, "cs-rel", 6, 30, 4, tso=True, time_cap=12, args=["--limdir"]),
                det("witness-lightweight-wait-gap", H, "cs-rel", 2, 40, 4, tso=False, time_cap=20, args=["--witness"]),
+               cmd("node-contract-model", "harness/c15_fgmodel_rc.cpp", "plain", 2, ["60000", "C14"], link_tbb=True, ldflags=["-lrapidcheck"], replay_tag="fgmodel-"),
                tsan("C14", 8, 240)],
         thorough=[det("rel", H, "cs-rel", 16, 2200, 5, tso=True, time_cap=330),
                   det("dbg", H, "cs-dbg", 16, 700, 5, tso=True, time_cap=240),
@@ -35,6 +36,7 @@ PLAN = dict(
                   det("enum-conflict", H, "cs-rel", 16, 40, 2, tso=True, time_cap=120, enum="conflict", enum_cap=120),
                   det("limiter-directed", H, "cs-rel", 16, 300, 4, tso=True, time_cap=90, args=["--limdir"]),
                   det("witness-lightweight-wait-gap", H, "cs-rel", 2, 40, 4, tso=False, time_cap=20, args=["--witness"]),
+               cmd("node-contract-model", "harness/c15_fgmodel_rc.cpp", "plain", 8, ["1500000", "C14"], link_tbb=True, ldflags=["-lrapidcheck"], replay_tag="fgmodel-"),
                tsan("C14", 16, 600)],
     ),
 )
